@@ -77,6 +77,8 @@ def gen_plan(S, index, tier):
     fault_free = S.coin(0.2)
     faults = [] if fault_free else [f for f in FAULT_KINDS if S.coin(0.6)]
     pool = {'X0': {'kind': 'ann', 'via': S.pick(['parse', 'create']), 'spec': sp}}
+    if pool['X0']['via'] == 'create':
+        pool['X0']['order'] = SP.gen_order(S, sp)
     models = {'X0': ModelPeptide.from_spec(sp)}
     lists = {}     # caller-owned lists: handle -> (field it fits, value)
     events = []
@@ -743,10 +745,15 @@ def _exec_event(run, ev_i, ev):
                 _lib(x.pop_internal_mod, loc[1])
         elif loc[0] == 'interval':
             ivs = x.intervals
-            if ivs is None or loc[1] >= len(ivs):
+            if ivs is None or loc[1] >= len(m.intervals):
                 return False
+            # the model's i-th interval, wherever the live list stores it (storage order is not state)
+            ms, me = m.intervals[loc[1]][0], m.intervals[loc[1]][1]
             new = [pt.Interval(iv.start, iv.end, iv.ambiguous, copy.deepcopy(iv.mods)) for iv in ivs]
-            new[loc[1]].mods = val or None
+            hit = [iv for iv in new if iv.start == ms and iv.end == me]
+            if len(hit) != 1:
+                return False
+            hit[0].mods = val or None
             x.intervals = new
         _set_loc(m, loc, ev['mods'])
         out.probes[ev.get('why', 'setloc')] += 1
@@ -765,7 +772,8 @@ def _exec_event(run, ev_i, ev):
             elif loc[0] == 'internal':
                 lst = x.get_internal_mods_by_index(loc[1])
             else:
-                lst = x.intervals[loc[1]].mods
+                ms, me = m.intervals[loc[1]][0], m.intervals[loc[1]][1]
+                lst = [iv for iv in x.intervals if iv.start == ms and iv.end == me][0].mods
             mod = lst[ev['j']]
         except Exception:
             return False
